@@ -447,6 +447,7 @@ class C20(Check):
             if sorted(ids) != sorted(g.nodes):
                 viol.append(('node-entries', f'config {sorted(ids)} graph {sorted(g.nodes)}'))
             idx = S.node_index(prog)
+            shared_generic = {m for ms in S.shared_generic_groups(prog).values() for m in ms}
             for n in cfg.nodes:
                 if n.id in dag.node_map:
                     cls = dag.node_map[n.id]
@@ -468,6 +469,8 @@ class C20(Check):
                             want.append(f'node {sid} docstring')
                         if is_gen and not idx[sid].get('doc'):
                             want = []  # nothing declared on the class itself: inherited text is not checked
+                        if sid in shared_generic:
+                            want = []  # built from a shared base: the generated module declares no text for it
                         if want and n.data.doc not in want:
                             viol.append(('node-doc', f'{n.id}: {n.data.doc!r} not in {want!r}'))
                     if bool(n.is_generic) != bool(idx[sid].get('generic') and idx[sid]['params']
